@@ -20,6 +20,10 @@ var segMenu = []segT{
 	{"a%2Fb", "a/b", "percent-2F"},
 	{"%C3%BC", "ü", "utf8"},
 	{"a@b", "a@b", "at-sign"},
+	// escaped reserved characters: decoding them too early turns the rest of the path into a query / fragment
+	{"a%3Fb", "a?b", "percent-3F"},
+	{"a%23b", "a#b", "percent-23"},
+	{"a%25b", "a%b", "percent-25"},
 }
 
 type menuT struct{ Raw, Feat string }
